@@ -38,7 +38,7 @@ impl Dependencies for NumberLoop {
             result.append(&mut step.net_dependencies());
         }
 
-        result.append(&mut self.body.net_dependencies());
+        result.append(&mut self.body.net_dependencies_within_function());
 
         result
     }
